@@ -185,6 +185,8 @@ def record_chains(rng, n):
       continue
     hy = random_rewrite(rng, hp) if rng.random() < 0.8 else hp
     hz = random_rewrite(rng, hy) if rng.random() < 0.6 else hy
+    if any(H.has_shared_internable(h) for h in (hp, hy, hz)):
+      continue      # (sharing of an internable tuple is outside Equiv's domain)
     x, _ = H.realize(hp)
     y = NoisyRealizer(hy).obj(1)
     z, _ = H.realize(hz)
